@@ -169,7 +169,45 @@ fn gen_sweep_case(seed: u64, j: u64) -> Case {
     Case { K, T: rng.range(1, 3) as usize, threshold, data_seed: rng.next(), arrivals, batch_first: K - 1 }
 }
 
+pub const HIDEG_BASE: u64 = 1 << 41;
+
+/// High-degree family: a small block received through repair symbols whose LT degree (reference Deg[])
+/// is at least 4 (one of them exactly 4 in half of the cases), so that the solver's first phase has to
+/// pick rows with r >= 4 ones in V - something uniformly drawn sets practically never make it do.
+fn gen_hideg_case(seed: u64, j: u64) -> Case {
+    let mut rng = Rng::derive(seed, 0x0232, j);
+    let kp = *rng.pick(&[10usize, 10, 10, 12, 18, 20, 26, 30, 32, 36, 42]);
+    let K = if rng.chance(1, 4) && kp > 10 { kp - 1 } else { kp };
+    let p = rm::params(K);
+    let deg = |e: u32| rm::tuple(&p, e as u64 + (p.Kp - K) as u64).0;
+    let mut used: HashSet<u32> = HashSet::new();
+    let mut arrivals: Vec<u32> = vec![];
+    let window = if rng.chance(1, 2) { 4000 } else { (1 << 24) - 1 - K as u64 };
+    let want_low = rng.chance(1, 2);
+    let pick = |rng: &mut Rng, lo: u64, hi: u64, used: &mut HashSet<u32>| loop {
+        let e = K as u32 + rng.below(window) as u32;
+        let d = deg(e);
+        if d >= lo && d <= hi && used.insert(e) {
+            return e;
+        }
+    };
+    if want_low {
+        arrivals.push(pick(&mut rng, 4, 4, &mut used));
+    }
+    while arrivals.len() < K {
+        arrivals.push(pick(&mut rng, if want_low { 5 } else { 4 }, 30, &mut used));
+    }
+    rng.shuffle(&mut arrivals);
+    for _ in 0..4 {
+        arrivals.push(pick(&mut rng, 3, 30, &mut used));
+    }
+    Case { K, T: rng.range(1, 3) as usize, threshold: *rng.pick(&[0u32, 250, u32::MAX]), data_seed: rng.next(), arrivals, batch_first: K - 1 }
+}
+
 pub fn gen_case(seed: u64, idx: u64, kmax: usize) -> Case {
+    if idx >= HIDEG_BASE {
+        return gen_hideg_case(seed, idx - HIDEG_BASE);
+    }
     if idx >= SWEEP_BASE {
         return gen_sweep_case(seed, idx - SWEEP_BASE);
     }
@@ -250,6 +288,11 @@ pub fn run_case(ctx: &Ctx, gf: &Gf, c: &Case, replay: J, st: &Stats) {
     let mk = |e: u32| if (e as usize) < K { src[e as usize].clone() } else { enc.repair_packets(e - K as u32, 1).pop().unwrap() };
     let mut dec = SourceBlockDecoder::new(0, &cfg, (K * c.T) as u64);
     dec.verif_set_sparse_threshold(c.threshold);
+    // second observer: the object-level decoder of the same one-block object, fed packet by packet
+    // through a random mix of its two entry points; it must answer exactly when the block decoder does
+    let mut obj = raptorq::Decoder::new(cfg);
+    obj.verif_set_sparse_threshold(c.threshold);
+    let mut obj_rng = Rng::new(c.data_seed ^ 0x0b1ec7);
     let mut have: HashSet<u32> = HashSet::new();
     let mut i = 0;
     let sigbase = {
@@ -275,7 +318,28 @@ pub fn run_case(ctx: &Ctx, gf: &Gf, c: &Case, replay: J, st: &Stats) {
             }
             st.calls_with_duplicates.fetch_add(1, Relaxed);
         }
+        let obj_ret = guarded(|| {
+            let mut last = None;
+            for p in pk.iter().cloned() {
+                last = if obj_rng.chance(1, 2) {
+                    obj.decode(p)
+                } else {
+                    obj.add_new_packet(p);
+                    if obj_rng.chance(1, 2) { obj.get_result() } else { obj.decode(pk[0].clone()) }
+                };
+            }
+            last
+        });
         let ret = guarded(|| dec.decode(pk));
+        if let (Ok(o), Ok(r)) = (&obj_ret, &ret) {
+            if o.is_some() != r.is_some() {
+                ctx.violation(format!("C02 object-vs-block {sigbase} n={}", have.len()), format!("K={K}: after {} distinct symbols the block decoder answers {} but the object-level decoder of the same one-block object (packets fed through a mix of decode() and add_new_packet()+get_result()) answers {}", have.len(), if r.is_some() { "Some" } else { "None" }, if o.is_some() { "Some" } else { "None" }), replay);
+                return;
+            }
+        } else if let Err(m) = &obj_ret {
+            ctx.violation(format!("C02 object-decoder-panic {sigbase} n={}", have.len()), format!("K={K}: object-level decoder panicked after {} distinct encoder-produced symbols: {}", have.len(), short(m, 120)), replay);
+            return;
+        }
         let ret = match ret {
             Err(m) => {
                 ctx.violation(format!("C02 decoder-panic {sigbase} n={}", have.len()), format!("K={K}: decoder panicked after {} distinct encoder-produced symbols: {}", have.len(), short(&m, 120)), replay);
@@ -367,12 +431,14 @@ pub fn run(ctx: &Ctx) -> i32 {
         ctx.nontrivial(2);
         return ctx.finish("replay of one recorded arrival sequence", &[], vec![]);
     }
+    crashlog::set_case_fields(&["seed", "idx", "kmax"]);
     let n = ctx.args.ex_u64("n", ctx.args.pick(24000, 600000)) as usize;
     let ev0 = raptorq::verif::events::read();
     par_for(n, |i| {
         if ctx.too_many_violations() {
             return;
         }
+        crashlog::note(crashlog::CASE, &[ctx.seed(), i as u64, kmax as u64]);
         let c = gen_case(ctx.seed(), i as u64, kmax);
         let rj = case_json(ctx.seed(), i as u64, kmax, &c);
         if i < 3 {
@@ -393,6 +459,7 @@ pub fn run(ctx: &Ctx) -> i32 {
                 return;
             }
             let idx = SWEEP_BASE + j as u64;
+            crashlog::note(crashlog::CASE, &[ctx.seed(), idx, kmax as u64]);
             let c = gen_case(ctx.seed(), idx, kmax);
             let rj = case_json(ctx.seed(), idx, kmax, &c);
             run_case(ctx, &gf, &c, rj, &st);
@@ -401,6 +468,19 @@ pub fn run(ctx: &Ctx) -> i32 {
         });
     }
     ctx.cov("table2_sweep_cases_(K=K'_and_K=K'-1_or_prevK'+1)", J::i(sweep_done.load(Relaxed)));
+    let n_hideg = if ctx.args.ex("n").is_none() { ctx.args.pick(60_000usize, 1_200_000) } else { 0 };
+    par_for(n_hideg, |j| {
+        if ctx.too_many_violations() {
+            return;
+        }
+        let idx = HIDEG_BASE + j as u64;
+        crashlog::note(crashlog::CASE, &[ctx.seed(), idx, kmax as u64]);
+        let c = gen_case(ctx.seed(), idx, kmax);
+        let rj = case_json(ctx.seed(), idx, kmax, &c);
+        run_case(ctx, &gf, &c, rj, &st);
+        ctx.eval(1);
+    });
+    ctx.cov("high_LT_degree_sets_(first_phase_rows_with_r>=4)", J::i(n_hideg));
     let ev = raptorq::verif::events::read();
     ctx.cov("prefix_decisions_compared_with_rank_oracle", J::i(st.decisions.load(Relaxed)));
     ctx.cov("prefixes_below_K_asserted_None", J::i(st.below_k.load(Relaxed)));
@@ -414,7 +494,7 @@ pub fn run(ctx: &Ctx) -> i32 {
     ctx.floor("undecodable_prefixes_holding_at_least_L_symbols_(flood_of_dependent_symbols)", st.flood_undecodable.load(Relaxed), if q { 50 } else { 0 });
     ctx.floor("prefix_decisions", st.decisions.load(Relaxed), if q { 10000 } else { 10 });
     ctx.finish(
-        "arrival sequences of distinct encoder-produced symbols aimed at the decision boundary: 0..K-1 surviving source symbols + repair ESIs (small, uniform over [K,2^24), top of range) up to exactly K symbols, then extras one by one; one third of the cases start with one batch of K+H..K+H+3 symbols (reaches the GF(2)-only attempt; sets whose binary rows are rank deficient while the full matrix has rank L are counted as fallback cases); one case in 40 floods the decoder with L..L+11 repair symbols taken from at most 6 classes of ESIs with identical LT rows (rank far below L however many arrive) before the symbols that complete the rank; K in 1..60, random Table-2 K' and K'+-1 up to kmax, uniform up to kmax, plus one sweep over every Table-2 row up to sweep_kmax (every 5th row above, up to sweep_kmax2) with K = K' and K = K'-1 / previous K'+1 and 1-3 lost source symbols; T 1..4; sparse threshold {0,250,inf}. After EVERY call: Some iff (all source present or rank over GF(256) of [LDPC; HDPC; LT rows of received+padding ISIs] = L) computed by the independent reference model; Some implies the right bytes. non-trivial = prefix with >= K distinct symbols and not all-source; distinct by (K, ESI set)",
+        "arrival sequences of distinct encoder-produced symbols aimed at the decision boundary: 0..K-1 surviving source symbols + repair ESIs (small, uniform over [K,2^24), top of range) up to exactly K symbols, then extras one by one; one third of the cases start with one batch of K+H..K+H+3 symbols (reaches the GF(2)-only attempt; sets whose binary rows are rank deficient while the full matrix has rank L are counted as fallback cases); one case in 40 floods the decoder with L..L+11 repair symbols taken from at most 6 classes of ESIs with identical LT rows (rank far below L however many arrive) before the symbols that complete the rank; K in 1..60, random Table-2 K' and K'+-1 up to kmax, uniform up to kmax, 60 000 / 1 200 000 sets of a small block (K' <= 42) made only of repair symbols of LT degree >= 4 (so that the first solver phase meets rows with r >= 4), plus one sweep over every Table-2 row up to sweep_kmax (every 5th row above, up to sweep_kmax2) with K = K' and K = K'-1 / previous K'+1 and 1-3 lost source symbols; T 1..4; sparse threshold {0,250,inf}. After EVERY call: Some iff (all source present or rank over GF(256) of [LDPC; HDPC; LT rows of received+padding ISIs] = L) computed by the independent reference model; Some implies the right bytes. non-trivial = prefix with >= K distinct symbols and not all-source; distinct by (K, ESI set)",
         &["rank oracle = harness's independent model of RFC 6330 5.3.3.3 / 5.3.5 (golden tables; GF(2) elimination on bitsets then GF(256) elimination of the HDPC residual)", "symbol payloads are those of the crate's encoder (whose RFC conformance is C04's business)"],
         vec![],
     )
